@@ -26,4 +26,13 @@ def cells(tier):
     out += make_cells(PID, 'report', tier, N=1, thin=small(1), suffix='single-element')
     out += make_cells(PID, 'report', tier, N=2, thin=lambda op, story_k, tk, sk, nk: small(2)(op, story_k, tk, sk, nk) and
                       (sk or []).count('existing') == 2, suffix='all-elements-named')
+    # the same reports reach the caller when the messages are merged through a collection (whichever messages
+    # resolve is the solver's choice; messages numbered below the roCreate are merged like the others)
+    from .p_c09 import mk as cmk
+    T = 90 if tier == 'quick' else 600
+    for kinds in (('roStoryDelete', 'roItemDelete'), ('roStoryDelete', 'roStoryInsert'), ('roItemDelete', 'roStoryMove')):
+        for strict in (True, False):
+            out.append(cmk(PID, kinds, strict, 'string', T=T, tag='reports-through-a-collection'))
+        out.append(cmk(PID, kinds, False, 'file', T=T, mids=['3', '20'], rc_mid='10', perm=[2, 0, 1], tag='reports-through-a-collection'))
+    out.append(cmk(PID, ('roStoryDelete', 'roItemDelete', 'roStoryDelete'), False, 's3', T=T, tag='reports-through-a-collection'))
     return out
